@@ -1139,7 +1139,7 @@ def extra(ctx):
     fails = []
     counts = {}
     procs = min(8, int(os.environ.get("VERIF_C04_PROCS", "8")))
-    box = float(os.environ.get("VERIF_C04_SECONDS", ctx.n(30, 180)))
+    box = float(os.environ.get("VERIF_C04_SECONDS", ctx.n(20, 180)))
     cap = int(os.environ.get("VERIF_C04_PROBES", ctx.n(1500000, 12000000)))
     floor = int(os.environ.get("VERIF_C04_MIN_PROBES", ctx.n(40000, 400000)))
     per = ctx.n(2500, 10000)
